@@ -28,7 +28,9 @@ def run(chk):
         "interpreter labels every TypeState with the set of child expressions whose effects it is guaranteed to contain (clone keeps the label, a child's "
         "type_info/apply_type_info adds the child, TypeState::merge intersects); the state returned by Op::type_info and IfStatement::type_info must contain "
         "every child that is always evaluated (both operands of non-short-circuit operators, the left operand, the predicate) and must not contain a "
-        "child that is only conditionally evaluated (the right operand of `&&`/`||`/`??` unless the left kind makes it certain, either branch of `if`). Undecided: Kind::insert/at_path/"
+        "child that is only conditionally evaluated (the right operand of `&&`/`||`/`??` unless the left kind makes it certain, either branch of `if`). R01g branch isolation while compiling: in Compiler::compile_if_statement the whole "
+        "TypeState is restored to the clone taken after the predicate before the else block is compiled, and to the clone taken on entry before the "
+        "statement's own type_info is applied (so neither branch is compiled, and no result is typed, on top of the other branch's bindings). Undecided: Kind::insert/at_path/"
         "merge (collection kinds: all objects and arrays are one abstract kind here), closure typing (upstream TODO #13782), stdlib type_defs beyond C03, "
         "operators on compile-time constants.")
     chk.assumptions += ["FunctionExpressionAdapter::type_info returns the incoming state unchanged (read once; re-checked by R01b's adapter clause)"]
@@ -81,6 +83,7 @@ def run(chk):
 
     rule_r01e(chk)
     rule_r01f(chk)
+    rule_r01g(chk)
 
 
 def rule_r01e(chk):
@@ -278,3 +281,65 @@ def rule_r01f(chk):
         if not ok:
             chk.violation(rid, facts.body(name).file, name, "%s: effects of its operand not in the returned state" % d["expression"],
                           "%s::type_info returns a type state that does not contain the effects of its (always evaluated) operand" % d["expression"], detail=d)
+
+
+COMPILE_IF = "compiler::compiler::Compiler::<'a>::compile_if_statement"
+
+
+def rule_r01g(chk):
+    """the else block is compiled from the post-predicate state, not from what the if block left behind"""
+    facts = chk.facts
+    rid = "R01g"
+    chk.rule(rid, "compile_if_statement restores the whole TypeState (post-predicate clone) before compiling the else block, and the entry clone before apply_type_info", floor=2)
+    b = chk.anchor(COMPILE_IF, rid)
+    if b is None:
+        return
+    state_param = None
+    for i in range(1, b.argc + 1):
+        if "&mut compiler::state::TypeState" in b.local_ty(i):
+            state_param = i
+    if state_param is None:
+        chk.fail_closed(rid, "compile_if_statement has no `&mut TypeState` parameter")
+        return
+    clones = [(bb, t) for bb, t in b.calls() if b.callee(t) == "<compiler::state::TypeState as std::clone::Clone>::clone"]
+    blocks = [(bb, t) for bb, t in b.calls() if b.callee(t).endswith("::compile_block")]
+    preds = [(bb, t) for bb, t in b.calls() if b.callee(t).endswith("::compile_predicate")]
+    applies = [(bb, t) for bb, t in b.calls() if b.callee(t).endswith("apply_type_info")]
+    if len(blocks) != 2 or len(preds) != 1 or not applies:
+        chk.fail_closed(rid, "compile_if_statement: expected 1 compile_predicate, 2 compile_block and an apply_type_info call, found %d/%d/%d"
+                        % (len(preds), len(blocks), len(applies)))
+        return
+    blocks.sort(key=lambda x: x[1]["ln"])
+    (if_bb, if_t), (else_bb, else_t) = blocks
+    pred_bb = preds[0][0]
+    # whole-state restores: `(*state) = move X`
+    restores = []
+    for bi, si, st in b.iter_stmts():
+        d = st["d"]
+        if d["l"] == state_param and d.get("p") == ["*"] and st["rv"]["k"] == "use" and not b.is_cleanup(bi):
+            src = op_local(st["rv"]["op"])
+            origin = None
+            for x in cfgq.ref_chain(b, src) if src is not None else []:
+                for kind, dbb, dsi, dx in b.defs().get(x, []):
+                    if kind == "call" and b.callee(dx) == "<compiler::state::TypeState as std::clone::Clone>::clone":
+                        origin = dbb
+            restores.append((bi, origin))
+    def clone_between(origin, after, before):
+        return origin is not None and (after is None or b.dominates(after, origin)) and b.dominates(origin, before) and origin != before
+    # (1) before the else block: restore from a clone taken after the predicate and before the if block
+    ok1 = any(b.dominates(if_bb, rb) and b.dominates(rb, else_bb) and clone_between(org, pred_bb, if_bb) for rb, org in restores)
+    d1 = {"fn": COMPILE_IF, "clause": "else block compiled from the post-predicate state", "whole_state_restores": len(restores)}
+    chk.instance(rid, d1, ok=ok1)
+    if not ok1:
+        chk.violation(rid, b.file, COMPILE_IF, "else block not compiled from the post-predicate state",
+                      "compile_if_statement does not restore the whole type state (the clone taken after the predicate) before compiling the else block: "
+                      "the else block sees the local variable types left behind by the if block, e.g. `c = 1; if .k { c = \"s\" } else { upcase(c) }` is accepted",
+                      detail=d1)
+    # (2) before the statement's own type_info: restore from the clone taken on entry (before the predicate)
+    ap_bb = applies[-1][0]
+    ok2 = any(b.dominates(rb, ap_bb) and org is not None and b.dominates(org, pred_bb) and org != pred_bb for rb, org in restores)
+    d2 = {"fn": COMPILE_IF, "clause": "apply_type_info starts from the entry state"}
+    chk.instance(rid, d2, ok=ok2)
+    if not ok2:
+        chk.violation(rid, b.file, COMPILE_IF, "if statement typed on top of a branch state",
+                      "compile_if_statement applies the statement's type_info to a state that is not the one it was entered with", detail=d2)
